@@ -493,11 +493,57 @@ def run_empty_container_acceptance(res, seed):
                     res["judged"][sig_key(sig)] = 1
 
 
+def run_option_forwarding(res, seed):
+    """A rule that is wrong only for a NAMED option of the checked function (a missing factor when scale != 1) is
+    rejected when the check is asked for with that option - through check_grads on a closure, through
+    quick_grad_check's kwargs= and extra_args= - and accepted with the default option, where the rule is right."""
+    import autograd.numpy as anp
+    from autograd.extend import defvjp, primitive
+    from autograd.test_util import check_grads
+    from autograd.util import quick_grad_check
+
+    P = primitive(lambda x, shift=0.0, scale=1.0: onp.sin(x) * scale + shift)
+    defvjp(P, lambda ans, x, shift=0.0, scale=1.0: lambda g: g * anp.cos(x))  # forgets `scale`
+    rng = onp.random.Generator(onp.random.PCG64([seed, 79]))
+    import contextlib, io
+
+    for via in ("check_grads_closure", "quick_grad_check_kwargs", "quick_grad_check_extra_args", "quick_grad_check_default_option"):
+        rej, ran = 0, 60
+        for t in range(ran):
+            onp.random.seed(int(rng.integers(0, 2**31)))
+            x = rng.uniform(0.2, 1.2, size=3)
+            res["evaluations"] += 1
+            try:
+                with warnings.catch_warnings():
+                    warnings.simplefilter("ignore")
+                    with contextlib.redirect_stdout(io.StringIO()):
+                        if via == "check_grads_closure":
+                            check_grads(lambda t_: P(t_, scale=3.0), modes=["rev"], order=1)(x)
+                        elif via == "quick_grad_check_kwargs":
+                            quick_grad_check(P, x, kwargs={"scale": 3.0}, verbose=False)
+                        elif via == "quick_grad_check_extra_args":
+                            quick_grad_check(P, x, extra_args=(0.5, 3.0), verbose=False)
+                        else:
+                            quick_grad_check(P, x, kwargs={"shift": 0.5}, verbose=False)
+            except Exception:
+                rej += 1
+        sig = {"engine": "checker", "kind": "option_forwarding", "via": via}
+        case = {"kind": "option_forwarding", "seed": seed}
+        if via == "quick_grad_check_default_option":
+            if rej:
+                res["violations"].append({"sig": dict(sig, symptom="checker_false_reject"), "case": case, "detail": "%d/%d rejections of a rule that is right for the requested option" % (rej, ran)})
+        elif rej < ran:
+            res["violations"].append({"sig": dict(sig, symptom="checker_low_power"), "case": case, "detail": "a rule wrong only for scale != 1 was rejected in %d of %d checks requested with scale=3 (%s)" % (rej, ran, via)})
+        res["judged"][sig_key(sig)] = ran
+
+
 def run_shard(pid, tier, seed, idx, n):
     common.setup_repo()
     res = _new_result()
     if idx == 3 % n:
         run_empty_container_acceptance(res, seed)
+    if idx == 4 % n:
+        run_option_forwarding(res, seed)
     sts = settings(tier)
     res["info"]["settings"] = len(sts)
     n_trials = 400 if tier == "quick" else 2000
@@ -517,6 +563,8 @@ def replay(pid, case):
     res = _new_result()
     if case["kind"] == "setting":
         run_setting(res, case["setting"], case["n"], case["seed"])
+    elif case["kind"] == "option_forwarding":
+        run_option_forwarding(res, case["seed"])
     elif case["kind"] == "empty_container":
         run_empty_container_acceptance(res, case["seed"])
     else:
